@@ -6,6 +6,7 @@ from platform import python_version_tuple
 PY2 = python_version_tuple()[0] == "2"
 
 import re
+import codecs
 from functools import partial
 
 from ural.utils import quote
@@ -19,6 +20,16 @@ else:
     HEX_TO_BYTE = {(a + b).encode(): bytes.fromhex(a + b) for a in HEX for b in HEX}
 
 ASCII_RE = re.compile("([\x00-\x7f]+)")
+
+
+# NOTE: unquoted bytes that are not valid utf-8 cannot be represented as
+# text, so we keep them escaped rather than replacing them
+def _keep_escaped(error):
+    invalid = bytearray(error.object[error.start : error.end])
+    return "".join("%%%02X" % byte for byte in invalid), error.end
+
+
+codecs.register_error("ural_keep_escaped", _keep_escaped)
 
 
 def _unquote_impl(string, only_printable=False, unsafe=None):
@@ -58,7 +69,7 @@ def _generate_unquoted_parts(string, only_printable=False, unsafe=None):
 
         m = ascii_match.group(1)
         c = _unquote_impl(m, only_printable=only_printable, unsafe=unsafe).decode(
-            "utf-8", "replace"
+            "utf-8", "ural_keep_escaped"
         )
 
         yield c
